@@ -221,3 +221,137 @@ class ArbitraryDistance:
 
     def value(self, i, j):
         return self.D[i][j]
+
+
+# ---------------------------------------------------------------- structural comparison / snapshots (C20, C19)
+def same_value(a, b):
+    """symbolic bool: a and b are structurally equal values (lists, tuples, model arrays / frames, terms, scalars, strings)"""
+    from models import np_model, pd_model, sp_model
+    import numpy as _np
+    if a is b:
+        return True
+    if isinstance(a, (list, tuple)) and isinstance(b, (list, tuple)):
+        if len(a) != len(b):
+            return False
+        return so.b_and(*[same_value(x, y) for x, y in zip(a, b)])
+    if isinstance(a, np_model.NDArray) and isinstance(b, np_model.NDArray):
+        if a.shape != b.shape:
+            return False
+        return so.b_and(*[same_value(x, y) for x, y in zip(a._d, b._d)])
+    if isinstance(a, _np.ndarray) and isinstance(b, _np.ndarray):
+        return bool(a.shape == b.shape and _np.array_equal(a, b, equal_nan=True))
+    if isinstance(a, pd_model.DataFrame) and isinstance(b, pd_model.DataFrame):
+        if a._names != b._names or len(a._index) != len(b._index):
+            return False
+        return so.b_and(same_value(a._index, b._index), *[same_value(a._cols[n], b._cols[n]) for n in a._names])
+    if isinstance(a, pd_model.Series) and isinstance(b, pd_model.Series):
+        return so.b_and(same_value(a._index, b._index), same_value(a._values, b._values))
+    if isinstance(a, sp_model.Term) and isinstance(b, sp_model.Term):
+        if a.name != b.name or set(a.kwargs) != set(b.kwargs):
+            return False
+        return so.b_and(same_value(list(a.args), list(b.args)), *[same_value(a.kwargs[k], b.kwargs[k]) for k in a.kwargs])
+    if isinstance(a, dict) and isinstance(b, dict):
+        if set(a) != set(b):
+            return False
+        return so.b_and(*[same_value(a[k], b[k]) for k in a])
+    if a is None or b is None:
+        return a is None and b is None
+    if isinstance(a, float) and isinstance(b, float) and not so.is_symbolic(a) and not so.is_symbolic(b) and a != a and b != b:
+        return True
+    if _is_str(a) and _is_str(b):
+        if len(a) != len(b):
+            return False
+        return str_eq_term(a, b)
+    if _is_str(a) or _is_str(b):
+        return False
+    try:
+        return so.eq(a, b)
+    except TypeError:
+        return a == b
+
+
+def _is_str(x):
+    return isinstance(x, str) or (hasattr(x, "__ch_pytype__") and x.__ch_pytype__() is str)
+
+
+def shallow_snapshot(obj):
+    """(container, [leaf objects]) for later identity comparison: the caller's containers must keep the same leaves"""
+    from models import np_model, pd_model
+    if isinstance(obj, list):
+        return ("list", list(obj))
+    if isinstance(obj, dict):
+        return ("dict", list(obj.items()))
+    if isinstance(obj, np_model.NDArray):
+        return ("nd", obj.shape, list(obj._d))
+    if isinstance(obj, pd_model.DataFrame):
+        return ("df", list(obj._names), list(obj._index), {n: list(obj._cols[n]) for n in obj._names})
+    if isinstance(obj, pd_model.Series):
+        return ("series", list(obj._index), list(obj._values), obj.name)
+    return ("other", obj)
+
+
+def unchanged(obj, snap):
+    from models import np_model, pd_model
+    kind = snap[0]
+    same = lambda xs, ys: len(xs) == len(ys) and all(x is y for x, y in zip(xs, ys))
+    if kind == "list":
+        return isinstance(obj, list) and same(obj, snap[1])
+    if kind == "dict":
+        items = list(obj.items())
+        return len(items) == len(snap[1]) and all(k1 == k2 and v1 is v2 for (k1, v1), (k2, v2) in zip(items, snap[1]))
+    if kind == "nd":
+        return obj.shape == snap[1] and same(obj._d, snap[2])
+    if kind == "df":
+        return obj._names == snap[1] and same(obj._index, snap[2]) and all(same(obj._cols[n], snap[3][n]) for n in snap[1])
+    if kind == "series":
+        return same(obj._index, snap[1]) and same(obj._values, snap[2]) and obj.name == snap[3]
+    return obj is snap[1]
+
+
+def mutable_defaults():
+    """{qualified name: (function, deep copy of its mutable default values)} over all pyrepseq functions"""
+    import copy
+    import sys
+    import types
+    import numpy as _np
+    out = {}
+    for name, mod in list(sys.modules.items()):
+        if mod is None or not (name == "pyrepseq" or name.startswith("pyrepseq.")):
+            continue
+        for k, v in list(vars(mod).items()):
+            fns = [v] if isinstance(v, types.FunctionType) else \
+                [f for f in vars(v).values() if isinstance(f, types.FunctionType)] if isinstance(v, type) and getattr(v, "__module__", "").startswith("pyrepseq") else []
+            for f in fns:
+                if not getattr(f, "__module__", "").startswith("pyrepseq"):
+                    continue
+                vals = list(f.__defaults__ or ()) + list((f.__kwdefaults__ or {}).values())
+                muts = [d for d in vals if isinstance(d, (dict, list, set, _np.ndarray))]
+                if muts:
+                    out[f"{f.__module__}.{f.__qualname__}"] = (f, copy.deepcopy(muts), muts)
+    return out
+
+
+def defaults_intact(snapshot):
+    import numpy as _np
+    bad = []
+    for name, (f, saved, live) in snapshot.items():
+        for s_, l_ in zip(saved, live):
+            if isinstance(s_, _np.ndarray):
+                ok = isinstance(l_, _np.ndarray) and _np.array_equal(s_, l_)
+            elif isinstance(s_, dict):
+                ok = isinstance(l_, dict) and list(s_.keys()) == list(l_.keys()) and all(_plain_eq(s_[k], l_[k]) for k in s_)
+            else:
+                ok = _plain_eq(s_, l_)
+            if not ok:
+                bad.append(f"{name}: default {s_!r} is now {l_!r}")
+    return bad
+
+
+def _plain_eq(a, b):
+    import numpy as _np
+    if isinstance(a, _np.ndarray) or isinstance(b, _np.ndarray):
+        return isinstance(a, _np.ndarray) and isinstance(b, _np.ndarray) and _np.array_equal(a, b)
+    try:
+        return bool(a == b)
+    except Exception:  # noqa
+        return False
